@@ -229,6 +229,16 @@ theorem insert_own_range (g : Nat → Nat → Nat) (hg : ∀ n c, n ≤ g n c) {
   obtain ⟨⟨x, y⟩, hxy, rfl, rfl, _⟩ := he
   exact hxy
 
+/-- `fcppt::io::read_chars` (read_from_opt + to_raw_vector) against the stream specification `sreadChars`
+(`istream::read(count)` is good iff `count` characters are available): a good read yields a vector that holds exactly the
+first `count` characters and owns the only block the call leaves behind; a short read yields nothing and leaves the heap as
+it was (the temporary buffer is freed exactly once) -/
+theorem read_chars_spec (g : Nat → Nat → Nat) (hg : ∀ n c, n ≤ g n c) {h : Heap} (hwf : HeapWf h) (input : List Int) (count : Nat) :
+    match sreadChars input count with
+    | some xs => ∃ h' v, readChars g h input count = .ok (h', some v) ∧ Owns h' v xs ∧ Frame h none h' v.base
+    | none => ∃ h', readChars g h input count = .ok (h', none) ∧ Frame h none h' none :=
+  readChars_spec g hg hwf input count
+
 /-! ## derived comparison operators, dynamic_array -/
 
 /-- comparison.hpp `!= > >= <=` as defined there from `==` and `<`: negated equality, the flipped order, and
